@@ -34,6 +34,11 @@ the operators "remove one occurrence" / "add one occurrence" at every child of w
 ranges (leaving min-1, exactly min, max, max+1).  What is a fault is judged by the independent reading `lib_cm.ref_accepts`,
 not by the library; a deviation that the Lean port of the pinned ModelVisitor (drv_c01) reproduces is C01-F0: counted, skipped.
 
+Family `nil`: valid base documents with NILLED elements (xsi:nil="true") of simple, defaulted, simple-content, element-only,
+mixed and empty types, every operator applied at the nilled element (add a declared / undeclared child, text, whitespace-only
+text, comment / PI (not a fault), xsi:nil false / garbage, xsi:type admissible / inadmissible, bad attribute), judged by the
+rule "a nilled element has no character or element children".
+
 Fault localisation as a theorem (`single_fault_localised`, `observed_fault_localised`, Props/C19.lean): the
 validator is modelled as a compositional `Val` (Model/Localise.lean).  The run ties it to the code as follows:
   * `validation_hook` (public API) records the declaration used for every element; the errors located at every
@@ -235,7 +240,31 @@ INH_XSD = '''<xs:schema xmlns:xs="http://www.w3.org/2001/XMLSchema">
 </xs:schema>'''
 
 
+# nillable elements of every content kind: simple (s), simple with a default (d), simple content with an attribute (sc),
+# element-only (c), mixed (m), empty (z); f has a fixed value (xsi:nil='true' is then an error), n is not nillable
+NIL_XSD = '''<xs:schema xmlns:xs="http://www.w3.org/2001/XMLSchema">
+ <xs:complexType name="C"><xs:sequence><xs:element name="b" type="xs:int"/></xs:sequence><xs:attribute name="k" type="xs:int"/></xs:complexType>
+ <xs:complexType name="M" mixed="true"><xs:sequence><xs:element name="b" type="xs:int" minOccurs="0"/></xs:sequence>
+  <xs:attribute name="k" type="xs:int"/></xs:complexType>
+ <xs:complexType name="Z"><xs:attribute name="k" type="xs:int"/></xs:complexType>
+ <xs:complexType name="SC"><xs:simpleContent><xs:extension base="xs:int"><xs:attribute name="k" type="xs:int"/></xs:extension>
+  </xs:simpleContent></xs:complexType>
+ <xs:element name="r"><xs:complexType><xs:sequence>
+   <xs:element name="s" type="xs:int" nillable="true" maxOccurs="unbounded"/>
+   <xs:element name="d" type="xs:int" nillable="true" default="5" minOccurs="0"/>
+   <xs:element name="sc" type="SC" nillable="true" minOccurs="0" maxOccurs="unbounded"/>
+   <xs:element name="c" type="C" nillable="true" minOccurs="0" maxOccurs="unbounded"/>
+   <xs:element name="m" type="M" nillable="true" minOccurs="0" maxOccurs="unbounded"/>
+   <xs:element name="z" type="Z" nillable="true" minOccurs="0"/>
+   <xs:element name="f" type="xs:int" fixed="7" nillable="true" minOccurs="0"/>
+   <xs:element name="n" type="xs:int" minOccurs="0"/>
+ </xs:sequence></xs:complexType></xs:element></xs:schema>'''
+
+
 def schema(form: str):
+    if form in ('nil10', 'nil11') and form not in _SCHEMAS:
+        import xmlschema
+        _SCHEMAS[form] = (xmlschema.XMLSchema10 if form == 'nil10' else xmlschema.XMLSchema11)(NIL_XSD)
     if form not in _SCHEMAS:
         import xmlschema
         if form in ('na11', 'inh11'):
@@ -1831,6 +1860,123 @@ def cm_family(ctx: Ctx, drv: Optional[Driver]) -> None:
         compare(ctx, drv, reqs, pend)
 
 
+# ------------------------------------------------------------------------------------------------
+# nilled elements (xsi:nil="true") in the VALID base documents, every operator applied AT the nilled element.  Independent
+# rule (XSD Part 1, Element Locally Valid 3.2): a nilled element has no character or element children (comments and
+# processing instructions are neither), must not have a fixed value, xsi:nil must be a boolean and is allowed only on a
+# nillable element; its attributes (and xsi:type) are checked as usual.
+NIL_TYPE = {'s': ('xs:int', 'xs:string'), 'd': ('xs:int', 'xs:string'), 'sc': ('SC', 'Z'), 'c': ('C', 'Z'), 'm': ('M', 'Z'),
+            'z': ('Z', 'C')}
+NIL_FALSE_VALID = {'d', 'm', 'z'}            # with xsi:nil="false" the EMPTY element is valid: default / optional / empty content
+
+
+def nil_ser(d: dict) -> str:
+    attrs = ''.join(f' {k}="{v}"' for k, v in d['a'].items())
+    if d['n'] == 'r':
+        attrs = ' xmlns:xsi="http://www.w3.org/2001/XMLSchema-instance" xmlns:xs="http://www.w3.org/2001/XMLSchema"' + attrs
+    return f"<{d['n']}{attrs}>{d.get('raw', '')}{d['t'] or ''}{''.join(nil_ser(c) for c in d['c'])}</{d['n']}>"
+
+
+def nil_family(ctx: Ctx, drv: Optional[Driver]) -> None:
+    rng = ctx.rng
+    reqs: list = []
+    pend: list = []
+
+    def el(n, t=None, c=(), **a) -> dict:
+        return {'n': n, 'a': dict(a), 't': t, 'c': list(c)}
+
+    def gen(n: str) -> dict:
+        k = {'k': str(rng.randrange(9))} if n in ('sc', 'c', 'm', 'z') and rng.random() < 0.5 else {}
+        if rng.random() < 0.6:
+            return el(n, **{'xsi:nil': rng.choice(['true', '1'])}, **k)
+        a = {'xsi:nil': rng.choice(['false', '0'])} if rng.random() < 0.3 else {}
+        a.update(k)
+        if n in ('s', 'sc'):
+            return el(n, '3', **a)
+        if n == 'd':
+            return el(n, rng.choice(['4', None]), **a)
+        if n == 'c':
+            return el(n, None, [el('b', '1')], **a)
+        if n == 'm':
+            return el(n, 'txt ', [el('b', '1')] if rng.random() < 0.5 else [], **a)
+        return el(n, **a)
+    for di in range(ctx.pick(16, 120)):
+        kids = [gen('s') for _ in range(rng.randrange(1, 3))] + ([gen('d')] if rng.random() < 0.6 else [])
+        for n in ('sc', 'c', 'm'):
+            kids += [gen(n) for _ in range(rng.randrange(3))]
+        if rng.random() < 0.6:
+            kids.append(gen('z'))
+        if rng.random() < 0.5:
+            kids.append(el('f', '7', **({'xsi:nil': 'false'} if rng.random() < 0.5 else {})))
+        if rng.random() < 0.5:
+            kids.append(el('n', '3'))
+        doc = el('r', None, kids)
+        form = 'nil11' if di % 2 else 'nil10'
+        base = {'doc': f'nil-{di}', 'form': form, 'layout': 'none', 'comments': False}
+        vx = nil_ser(doc)
+        for parser in ('etree', 'lxml'):
+            run_case(ctx, dict(base, fault=None, parser=parser, xml=vx), vx, form, parser, None, reqs, pend)
+        ops = []                                   # (operator, kind of fault or None = still valid, mutated, damaged)
+        for i, n in enumerate(kids):
+            pos = (i,)
+            nm = n['n']
+            nilled = n['a'].get('xsi:nil') in ('true', '1')
+
+            def mut(f) -> dict:
+                m = clone_raw(doc)
+                f(m['c'][i])
+                return m
+            if nm == 'f':
+                ops.append(('xsi:nil=true on an element with a fixed value', 'bad attribute value',
+                            mut(lambda x: (x['a'].update({'xsi:nil': 'true'}), x.update(t=None))), pos))
+                continue
+            if nm == 'n':
+                ops.append(('xsi:nil on an element that is not nillable', 'extra attribute',
+                            mut(lambda x: x['a'].update({'xsi:nil': rng.choice(['true', 'false'])})), pos))
+                continue
+            if not nilled:
+                continue
+            ops += [('add a child element (declared name)', 'extra child', mut(lambda x: x['c'].append(el('b', '1'))), pos + (0,)),
+                    ('add a child element (undeclared name)', 'extra child', mut(lambda x: x['c'].append(el('bogus'))), pos + (0,)),
+                    ('add text', 'bad value', mut(lambda x: x.update(t=rng.choice(['x', '5']))), pos),
+                    ('add whitespace-only text', 'bad value', mut(lambda x: x.update(t=rng.choice([' ', '\n  ']))), pos),
+                    ('add a comment', None, mut(lambda x: x.update(raw='<!--c-->')), pos),
+                    ('add a processing instruction', None, mut(lambda x: x.update(raw='<?p i?>')), pos),
+                    ('add a comment and a child element', 'extra child',
+                     mut(lambda x: (x.update(raw='<!--c-->'), x['c'].append(el('bogus')))), pos + (0,)),
+                    ('xsi:nil=false', None if nm in NIL_FALSE_VALID else 'bad attribute value',
+                     mut(lambda x: x['a'].update({'xsi:nil': rng.choice(['false', '0'])})), pos),
+                    ('xsi:nil=garbage', 'bad attribute value', mut(lambda x: x['a'].update({'xsi:nil': 'maybe'})), pos),
+                    ('add xsi:type (the declared type)', None, mut(lambda x: x['a'].update({'xsi:type': NIL_TYPE[nm][0]})), pos),
+                    ('add xsi:type (a type that cannot substitute)', 'bad attribute value',
+                     mut(lambda x: x['a'].update({'xsi:type': NIL_TYPE[nm][1]})), pos)]
+            if nm in ('sc', 'c', 'm', 'z'):
+                ops.append(('bad value of an attribute of the nilled element', 'bad attribute value',
+                            mut(lambda x: x['a'].update(k='x9')), pos))
+        for op, kind, m, damaged in ops:
+            xml = nil_ser(m)
+            nm = at(m, damaged[:1])['n']
+            ctx.count(f'nilled family: {op} ({nm}) -> ' + ('invalid' if kind else 'still valid'))
+            for parser in ('etree', 'lxml'):
+                case = dict(base, fault=kind, operator=op, node=list(damaged[:1]), damaged=list(damaged), parser=parser, xml=xml)
+                if kind is None:
+                    ctx.case(case, False, tag=f'nilled family: not a fault (still valid)/{parser}')
+                    run_case(ctx, case, xml, form, parser, None, reqs, pend)
+                else:
+                    run_case(ctx, case, xml, form, parser, damaged, reqs, pend)
+        if len(ctx.failures) >= 40:
+            break
+    if drv is not None:
+        compare(ctx, drv, reqs, pend)
+
+
+def clone_raw(d: dict) -> dict:
+    out = {'n': d['n'], 'a': dict(d['a']), 't': d['t'], 'c': [clone_raw(c) for c in d['c']]}
+    if 'raw' in d:
+        out['raw'] = d['raw']
+    return out
+
+
 def renders(ctx: Ctx, drv: Optional[Driver]) -> None:
     """get_prefixed_qname on random maps against the model; a rendered name must read back to the tag"""
     from xmlschema.utils.qnames import get_prefixed_qname
@@ -1889,6 +2035,7 @@ def run(ctx: Ctx, driver_ok: bool) -> None:
     same_family(ctx, drv)
     inh11_family(ctx, drv)
     cm_family(ctx, drv)
+    nil_family(ctx, drv)
     renders(ctx, drv)
     lazy_paths(ctx, drv)
     ctx.extra['explanation'] = ('every fault of the catalogue at every node (documents <= 40 nodes exhaustively, 40 seeded '
